@@ -71,20 +71,28 @@ THEOREMS = [
 ]
 RULE = (
     "corpus (F1, F6 inputs) + exhaustive small scope (n<=5 samples, dt in {1,2,3,5}, two starts, every window "
-    "with bounds in [start-2dt-1, stop+2dt+1] or None, continuous/time-series/time-tags; quick: n<=4, dt in {1,3}) "
+    "with bounds in [start-2dt-1, stop+2dt+1] or None, continuous/time-series/time-tags; quick: n<=4, dt in {1,3}; the whole "
+    "Slice.__getitem__: every pair of bound kinds (None, integers, valid/invalid time strings, non-numbers) as slice, slice with "
+    "step, object, Marker, calibration item, channel slice, on empty and non-empty sources of the three kinds, scalars, all masks "
+    "incl. wrong lengths, mask->window and window->mask; every string over the alphabet '1. \\nmsn-' up to length 4, thorough 5) "
     "+ seeded random channels (n<=3000, dt<=1e9, start<=2^62) with 1-3 nested windows drawn around the boundary "
-    "timestamps, bounds given as ints, None, time strings, slice objects, Marker and ForceCalibrationItem; boolean "
-    "masks; time strings from the grammar and a malformed stream. Non-trivial: the (last) window keeps a non-empty "
+    "timestamps, bounds given as ints, None, time strings, slice objects, Marker, ForceCalibrationItem and channel slices; random "
+    "chains of 1-3 items (windows, masks, rarely a step / scalar / invalid string / non-number); boolean "
+    "masks; time strings from the grammar and a malformed stream. Observables: the returned samples and, for every non-empty "
+    "result, len/start/stop. Non-trivial: the (last) window keeps a non-empty "
     "proper subset of the channel, or one of its bounds lies within one period of the first/last sample, or it lies "
-    "wholly before/after the data; for strings: accepted by the grammar with at least one group, or rejected."
+    "wholly before/after the data; for strings: accepted by the grammar with at least one group, or rejected; for item chains: "
+    "a non-empty source or a non-mask item."
 )
 TRUSTED = [
     "time strings: ASCII only (Python's \\d/\\s also accept non-ASCII digits/spaces; outside the model)",
     "timestamps below 2^62 (np.int64 overflow is outside the model)",
+    "Python's re module implements the textbook semantics of Timeindex's pattern (the Lean side proves the model's matcher equal to that semantics)",
 ]
 ASSUMPTIONS = [
     "Continuous channels have dt >= 1 (hypothesis of cont_slice_samples; the constructor does not check it)",
-    "time-series timestamps are non-decreasing in generated cases",
+    "time-series timestamps are non-decreasing in generated cases that use None or time strings (necessary: getitem_none_needs_sorted); unsorted series are sliced with explicit integers only",
+    "the exception class raised for an invalid argument is compared with the model but is not a clause of the property text",
 ]
 
 UNITS = [("d", 86400 * 10**9), ("h", 3600 * 10**9), ("m", 60 * 10**9), ("s", 10**9), ("ms", 10**6), ("us", 10**3), ("ns", 1)]
